@@ -124,7 +124,32 @@ example : outcome { kind := .read, address := 1, handle := 2 }
     .result ⟨.read, 1, 2⟩ := by decide
 example : outcome { kind := .write, address := 1, handle := 2 } [⟨.error, 1, 3⟩, ⟨.conn false, 2, 0⟩, ⟨.conn false, 1, 0⟩] =
     .dropped ⟨.conn false, 1, 0⟩ := by decide
-example : (cRun { address := 7 } [.connResp 8, .timeoutFire, .connResp 7, .discResp 8 false, .discTimeout]).log =
+example : (cRun { address := 7 } [.resp 8 true, .timeoutFire, .resp 7 true, .resp 8 false, .discTimeout]).log =
     [.unsub, .writeDisconnect 7, .raiseTimeout] := by decide
+example : (cRun { address := 7 } [.resp 8 true, .resp 8 false, .resp 7 false, .timeoutFire]).log = [.returnOk] := by decide
+
+/-- **C16 (connect is per address).**  Connection responses for other addresses never complete, fail or delay a device
+connect: the run is the run on the events that are not responses for another address. -/
+theorem c16_connect_isolation (a : Nat) (evs : List CEv) :
+    cRun { address := a } evs = cRun { address := a } (evs.filter fun e => match e with | .resp b _ => b = a | _ => true) := by
+  have key : ∀ (s : CSt), s.address = a →
+      cRun s evs = cRun s (evs.filter fun e => match e with | .resp b _ => b = a | _ => true) := by
+    induction evs with
+    | nil => intro s _; rfl
+    | cons e es ih =>
+      intro s ha
+      have haddr : ∀ e, (cStep s e).address = a := by
+        intro e; cases e <;> simp only [cStep] <;> (repeat' split) <;> simp_all
+      cases e with
+      | resp b c =>
+        by_cases hb : b = a
+        · simp only [List.filter, hb, decide_true, cRun, List.foldl_cons]
+          exact ih _ (haddr _)
+        · have hs : cStep s (.resp b c) = s := by simp [cStep, ha, hb]
+          simp only [List.filter, hb, decide_false, cRun, List.foldl_cons, hs]
+          exact ih s ha
+      | timeoutFire => simp only [List.filter, cRun, List.foldl_cons]; exact ih _ (haddr _)
+      | discTimeout => simp only [List.filter, cRun, List.foldl_cons]; exact ih _ (haddr _)
+  exact key _ rfl
 
 end Esp.C16
